@@ -226,10 +226,9 @@ def cdPairs (p : LPlan) (a : CdArgs) : ClassDef → Option (List (Nat × Nat))
   | .fmt1 s cs => cd1Pairs p a s cs
   | .fmt2 rs => (cd2PairsRaw p a rs).map sortPairs
 
-/-- `IntSet<u16>::insert` on an ascending list -/
-def setInsert (x : Nat) : List Nat → List Nat
-  | [] => [x]
-  | y :: ys => if x < y then x :: y :: ys else if x = y then y :: ys else y :: setInsert x ys
+/-- `IntSet<u16>::insert` on an ascending list (= C16's `insertUniq`: insert before the first larger
+element, nothing when present) -/
+abbrev setInsert (x : Nat) (l : List Nat) : List Nat := insertUniq x l
 
 /-- `retained_classes` -/
 def retainedClasses (ps : List (Nat × Nat)) : List Nat := ps.foldl (fun s x => setInsert x.2 s) []
@@ -238,9 +237,9 @@ def retainedClasses (ps : List (Nat × Nat)) : List Nat := ps.foldl (fun s x => 
 class 0 stays 0 unless class zero is reused; the retained classes are numbered from 0 / 1 in
 ascending order.  `none` = the `u16` counter `new_idx += 1` overflows. -/
 def classMap (useZero : Bool) (retained : List Nat) : Option (List (Nat × Nat)) :=
-  let base := if useZero then 0 else 1
-  if base + retained.length ≥ 65536 then none else
-  some ((if useZero then [] else [(0, 0)]) ++ retained.zipIdx.map fun ci => (ci.1, base + ci.2))
+  if (if useZero then 0 else 1) + retained.length ≥ 65536 then none else
+  some ((if useZero then [] else [(0, 0)]) ++
+    retained.zipIdx.map fun ci => (ci.1, (if useZero then 0 else 1) + ci.2))
 
 /-! ### the ClassDef writer -/
 
